@@ -256,10 +256,14 @@ func (l *runLog) noteStored(key string, val interface{}) {
 // Errors and tokens.
 
 type buildErr struct {
-	key  string
-	task string
-	n    int
+	key   string
+	task  string
+	n     int
+	cause error
 }
+
+// Unwrap exposes a generated cause (context or cache sentinel errors a real builder may return).
+func (e *buildErr) Unwrap() error { return e.cause }
 
 func (e *buildErr) Error() string { return fmt.Sprintf("builderr:%s#%d@%s", e.task, e.n, keyName([]byte(e.key))) }
 
@@ -610,6 +614,7 @@ type world struct {
 	name string
 	wrap        *beWrap
 	faultAtCall int
+	lossy       bool
 	// model-side counts of direct operations on the real backend (C18)
 	extDeleted, extExpired, prepWrites, prefailWrites int
 }
@@ -686,6 +691,7 @@ type getSpec struct {
 	skipRead bool
 	// builder script: outcome of the invocation made for this Get (a Get builds at most once)
 	buildFails bool
+	errKind    int // 0 plain, 1 wraps context.Canceled, 2 wraps context.DeadlineExceeded, 3 wraps cache.ErrNotFound, 4 wraps cache.ErrExpired
 	builderTTL []time.Duration // WithTTL(ctx, t, true) calls made by the builder
 	// post-return caller actions
 	poison    int // 0 = 0xAA fill, 1 = overwrite with otherKey, 2 = leave
@@ -741,7 +747,20 @@ func (w *world) builderFor(g *getSpec, t *task) func(ctx context.Context) (strin
 		)
 
 		if g.buildFails {
-			rec.err = &buildErr{key: key, task: tn, n: n}
+			be := &buildErr{key: key, task: tn, n: n}
+
+			switch g.errKind {
+			case 1:
+				be.cause = context.Canceled
+			case 2:
+				be.cause = context.DeadlineExceeded
+			case 3:
+				be.cause = cache.ErrNotFound
+			case 4:
+				be.cause = cache.ErrExpired
+			}
+
+			rec.err = be
 			err = rec.err
 		} else {
 			rec.tok = tokenFor(g.key, tn, n)
